@@ -2279,6 +2279,10 @@ def translate(repo, lean_out, harness_src, report_path):
     emit_dispatch(P, lean_out, harness_src, report)
     report["counts"] = dict(translated=len(report["translated"]), unmodelled=len(report["unmodelled"]),
                             methods=len(report["methods"]), functions=len(report["functions"]))
+    # per-method theorems (C08 sentence 1) over what was just written: Gen/A64Thm<k>.lean, Gen/A64ThmAll.lean
+    sys.path.insert(0, os.path.dirname(os.path.abspath(__file__)))
+    import gen_c08_thms
+    report["method_theorems"] = gen_c08_thms.generate(lean_out, report)
     with open(report_path, "w") as f:
         json.dump(report, f, indent=1)
     return report
